@@ -161,6 +161,13 @@ def run_shard(ctx, shard):
             ctx.run_case({'rows': rows})
             ctx.tag('documents_with_quoted_text')
             continue
+        if i % 11 == 5:
+            # labels whose characters spell a character reference or an escape: still these very characters, one per cell
+            y = rng.randrange(len(rows))
+            rows[y] = rows[y] + ' ' + ' '.join(rng.choice(['&lt;', '&gt;', '&amp;', 'a&lt;b', '&amp;&amp;', '&lt', 'R&D;', '&;', '&#8;', '\\n', '%41', '&lt;é']) for _ in range(rng.randint(1, 3)))
+            ctx.run_case({'rows': rows})
+            ctx.tag('labels_spelling_references')
+            continue
         if i % 5 == 4:
             prev = [''.join(rng.choice(LAB + DRAW + '  ') for _ in range(rng.randint(1, 12))) for _ in range(rng.randint(1, 5))]
             ctx.run_case({'rows': rows, 'previous': prev})
